@@ -399,6 +399,52 @@ func (o *Obligation) smtMode(w *World, extraAsserts []*Term, getValues []*Term, 
 	if ufmul {
 		b.WriteString("(declare-fun umul_real (Real Real) Real)\n(declare-fun umul_int (Int Int) Int)\n")
 	}
+	// string literals: pairwise distinct, known lengths and bytes; substring axiom
+	{
+		var lits []string
+		for _, k := range sortedKeys(sb.consts) {
+			if strings.HasPrefix(k, "str_") && sb.consts[k].Kind == KUnint {
+				lits = append(lits, k)
+			}
+		}
+		if len(lits) > 0 || sb.unint["strlen"] != "" || sb.unint["strAt"] != "" || sb.unint["strSub"] != "" {
+			if sb.unint["strlen"] == "" {
+				b.WriteString("(declare-fun strlen (Str) Int)\n")
+				sb.unint["strlen"] = "declared"
+			}
+			if sb.unint["strAt"] == "" {
+				b.WriteString("(declare-fun strAt (Str Int) Int)\n")
+				sb.unint["strAt"] = "declared"
+			}
+			b.WriteString("(assert (forall ((s$ Str)) (! (>= (strlen s$) 0) :pattern ((strlen s$)))))\n")
+			if sb.unint["strSub"] != "" {
+				b.WriteString("(assert (forall ((s$ Str) (lo$ Int) (hi$ Int) (i$ Int)) (! (= (strAt (strSub s$ lo$ hi$) i$) (strAt s$ (+ lo$ i$))) :pattern ((strAt (strSub s$ lo$ hi$) i$)))))\n")
+			}
+		}
+		if len(lits) > 1 {
+			b.WriteString("(assert (distinct " + strings.Join(lits, " ") + "))\n")
+		}
+		for _, l := range lits {
+			if l == "str_empty" {
+				b.WriteString("(assert (= (strlen str_empty) 0))\n")
+				continue
+			}
+			hex := strings.TrimPrefix(l, "str_")
+			n := len(hex) / 2
+			fmt.Fprintf(&b, "(assert (= (strlen %s) %d))\n", l, n)
+			for i := 0; i < n && i < 64; i++ {
+				var v int
+				fmt.Sscanf(hex[2*i:2*i+2], "%x", &v)
+				fmt.Fprintf(&b, "(assert (= (strAt %s %d) %d))\n", l, i, v)
+			}
+		}
+		// a string of length 0 is the empty string (the only extensionality fact needed: `s == ""` tests)
+		for _, l := range lits {
+			if l == "str_empty" {
+				b.WriteString("(assert (forall ((s$ Str)) (! (=> (= (strlen s$) 0) (= s$ str_empty)) :pattern ((strlen s$)))))\n")
+			}
+		}
+	}
 	// boxing a value struct into an interface: injective, non-nil, with the value's dynamic type
 	for _, k := range sortedKeys(sb.unint) {
 		if strings.HasPrefix(k, "box_") {
